@@ -13,7 +13,7 @@ LEVEL = ("theorems hgLower_spec / hgUpper_spec (limits are the least / greatest 
 ASSUMPTIONS = ["SciPy evaluates the hypergeometric cdf in doubles: cases where an exact tail probability is within 1e-12 of the "
                "level at the returned or the model's limit are excluded from the equality comparison and counted",
                "lower <= upper is checked on the implementation (exhaustive small domain), not proved"]
-CLS = [0.95, 0.9, 0.975, 0.5, 0.99, 0.8]
+CLS = [0.95, 0.9, 0.975, 0.5, 0.99, 0.8, 0.3, 0.05]
 ALTS = ["two-sided", "lower", "upper"]
 
 
